@@ -17,7 +17,7 @@ from mc.common import reset_frame_state, replay_via
 ID = 'C05'
 LEVEL = 'fault_enumeration'
 PRELOAD = ['frame.geometry.geometry', 'frame.netlist.netlist', 'frame.die.die', 'frame.allocation.allocation', 'ruamel.yaml', 'mc.common', 'mc.netdocs']
-RULE = ("well-formed documents: 1- and 2-module tuples over 34 module variants x net sets (quick), 3-module tuples over a sub-alphabet; each loaded "
+RULE = ("well-formed documents: 1- and 2-module tuples over 40 module variants x net sets (quick), 3-module tuples over a sub-alphabet; each loaded "
         "from the tree and from YAML text and compared with the definition-level model. Fault enumeration: for every base document every site of every "
         "defect class (unknown module in a net at each position, weight 0/-1, area 0/-2 scalar and per region, soft without area, hard with area, hard "
         "without rectangles, hard with overlapping rectangles, unknown attribute, invalid module name, one-pin net [A] and [A, w], rectangle width/height "
